@@ -290,6 +290,47 @@ func c18Binary(c *ev.Collector) {
 
 // c18HandlerStatus: every code a real unary Connect handler returns reaches
 // the wire with a 4xx/5xx status.
+// c18CodeOverTheWire: the decimal form of a code in Grpc-Status (and Connect's
+// code_N) carries every 32-bit code from a handler to a client: codes around
+// the 16 defined ones, around 2^31 (where a signed conversion turns negative)
+// and at the top of the range.
+func c18CodeOverTheWire(t *testing.T, c *ev.Collector) {
+	codes := []uint32{1, 2, 16, 17, 99, 1<<31 - 1, 1 << 31, 1<<31 + 1, 3000000000, 1<<32 - 2, 1<<32 - 1}
+	idx := 0
+	for _, p := range AllProtos {
+		for _, kind := range []Kind{KUnary, KServer} {
+			for _, v := range codes {
+				idx++
+				if !ev.Mine(idx) {
+					continue
+				}
+				key := fmt.Sprintf("code-over-the-wire/%s/%s/%d", p, kind, v)
+				c.Case(key, true)
+				Bubble(t, func() {
+					h := NewHandler(kind, func(ctx context.Context, s HStream) error {
+						return connect.NewError(connect.Code(v), errors.New("x"))
+					})
+					tr := &memhttp.Transport{Handler: h, Proto: 2, SyncCloseReq: true}
+					cl := NewClient(tr, Cfg{Proto: p, Comp: CompNone})
+					var res CallResult
+					g := Guarded(func() { res = RunCall(context.Background(), cl, kind, [][]byte{{1}}, nil) }, tr)
+					c.AddTransitions(2)
+					c.AddStates(2)
+					c.AddTraces(1)
+					if g.Hung || g.Panicked {
+						c.Violation("TestC18", "code-text-roundtrip", "hang-or-panic", []string{"wire"}, key, "%s: hung=%v panic=%v", key, g.Hung, g.Panic)
+						BailIfStuck(c, g)
+						return
+					}
+					if got := connect.CodeOf(res.Err); uint32(got) != v {
+						c.Violation("TestC18", "code-text-roundtrip", "differs", []string{"wire", "proto=" + p.String()}, key, "%s: the handler returned code %d, the client received %v (%v)", key, v, got, res.Err)
+					}
+				})
+			}
+		}
+	}
+}
+
 func c18HandlerStatus(t *testing.T, c *ev.Collector) {
 	codes := []uint32{0, 1, 2, 3, 4, 5, 6, 7, 8, 9, 10, 11, 12, 13, 14, 15, 16, 17, 99, 1<<32 - 1}
 	for i, v := range codes {
@@ -334,6 +375,7 @@ func TestC18(t *testing.T) {
 	}
 	thorough := ev.Thorough()
 	c18HandlerStatus(t, c)
+	c18CodeOverTheWire(t, c)
 	if shard, _ := ev.Shard(); shard == 0 {
 		c18NameTable(c)
 	}
